@@ -21,20 +21,21 @@ fn key_n(name: &'static str, n: usize) -> Key {
 }
 
 /// Records the exact byte stream fed to the hasher: equal hash for every hasher <=> equal stream.
-pub struct RecHasher {
-    pub buf: [u8; 32],
+pub struct RecHasherN<const N: usize> {
+    pub buf: [u8; N],
     pub len: usize,
 }
-impl RecHasher {
+pub type RecHasher = RecHasherN<32>;
+impl<const N: usize> RecHasherN<N> {
     pub fn new() -> Self {
-        RecHasher { buf: [0; 32], len: 0 }
+        RecHasherN { buf: [0; N], len: 0 }
     }
-    pub fn same(&self, o: &RecHasher) -> bool {
+    pub fn same(&self, o: &RecHasherN<N>) -> bool {
         if self.len != o.len {
             return false;
         }
         let mut i = 0;
-        while i < 32 {
+        while i < N {
             if self.buf[i] != o.buf[i] {
                 return false;
             }
@@ -43,7 +44,7 @@ impl RecHasher {
         true
     }
 }
-impl Hasher for RecHasher {
+impl<const N: usize> Hasher for RecHasherN<N> {
     fn finish(&self) -> u64 {
         0
     }
@@ -271,7 +272,7 @@ fn big8() {
     let a = Key::from_static_labels("n", leak_labels(&la));
     let b = Key::from_static_labels("n", leak_labels(&lb));
     check_pair(&a, &b);
-    let (mut ha, mut hb) = (RecHasher::new(), RecHasher::new());
+    let (mut ha, mut hb) = (RecHasherN::<64>::new(), RecHasherN::<64>::new());
     a.hash(&mut ha);
     b.hash(&mut hb);
     if a == b {
@@ -335,6 +336,6 @@ harnesses! {
     #[cfg_attr(kani, kani::stub(<metrics::KeyHasher as std::hash::Hasher>::write, kh_write))]
     #[cfg_attr(kani, kani::stub(<metrics::KeyHasher as std::hash::Hasher>::finish, kh_finish))]
     fn c03_perm_3() { perm(3) }
-    #[cfg_attr(kani, kani::unwind(34))]
+    #[cfg_attr(kani, kani::unwind(66))]
     fn c03_big8() { big8() }
 }
